@@ -278,7 +278,9 @@ def main() -> int:
                 agg["viol_counts"][verdict["mechanism"]] += 1
                 agg["violations"].append(verdict)
             else:
-                agg["inconclusive"].append(f"worker stalled on a case that finished when run alone ({verdict}): {str(hb.get('key'))[:120]!r}")
+                # slow in a loaded, monitored worker but finishing alone: decided as terminating (the confirmation run is the procedure)
+                agg["counters"]["stalled_in_worker_but_finished_alone"] += 1
+                agg["sets"]["slow_cases"].add(str(hb.get("key"))[:200])
         if len(pool.stalls) > len(confirm):
             agg["counters"]["stalled_cases_not_individually_confirmed"] += len(pool.stalls) - len(confirm)
         for fmsg in pool.failures:
